@@ -45,6 +45,13 @@ found it registered, healthy — and never served: `c01creator.go`) -/
 theorem gen_session_served :
     Gen.Deliver.creatorServesSessionEvenIfReplyFails = true ∧ Gen.Deliver.wsResponderReportsFailedUpgrade = true := by decide
 
+/-- the goroutine pairs that relay one stream each (`serveSession` on the server, `RouteTCP`/`RouteUDP` on the client) read
+only values of their own loop iteration: none of them can end up relaying the NEXT stream's bytes ("nothing ... taken from
+another stream"). Which goroutine reads a shared variable first is the scheduler's choice; the fact is about the source. -/
+theorem gen_goroutines_own_values :
+    Gen.Deliver.serveSessionGoroutinesOwnTheirValues = true ∧ Gen.Deliver.routeTCPGoroutinesOwnTheirValues = true ∧
+    Gen.Deliver.routeUDPGoroutinesOwnTheirValues = true := by decide
+
 /-! ## the sender's chunking loses nothing -/
 
 theorem take_drop_append {α : Type} (l : List α) (n u : Nat) : (l.drop n).take u ++ l.drop (n + u) = l.drop n := by
